@@ -63,7 +63,7 @@ def main(tier, evidence):
             if len(rep.samples) < 10 and (name.startswith("pipeline") or name.startswith("decompose") or name.startswith("ntt:coeff")):
                 rep.samples.append({"profile": prof, "group": name, "inputs": n, "distinct_traces": d, "events_per_run": g["examples"][0]["events"]})
             if d != 1:
-                rep.violate("c14:%s" % fam, "profile %s, group %s: %d distinct edge/address traces over %d inputs that differ only in secret data; e.g. %s" % (prof, name, d, n, g["examples"][:3]),
+                rep.violate("c14:%s" % fam, "profile %s, group %s: %d distinct edge/address traces over %d inputs that differ only in secret data; e.g. %s; first divergence: %s" % (prof, name, d, n, g["examples"][:3], g.get("first_divergence", "")),
                             {"engine": "cttrace", "profile": prof, "group": name, "examples": g["examples"]})
         if not done:
             rep.machinery.append("trace harness did not finish (exit %s): %s" % (r.returncode, r.stderr[-500:]))
